@@ -44,6 +44,7 @@ pub struct OpW {
     pub warm_insert: u32,
     pub counters: u32,
     pub fresh_lookup: u32,
+    pub iter_advance: u32,
 }
 
 impl Default for OpW {
@@ -65,6 +66,7 @@ impl Default for OpW {
             warm_insert: 2,
             counters: 1,
             fresh_lookup: 0,
+            iter_advance: 0,
         }
     }
 }
@@ -112,6 +114,7 @@ pub fn profile_for(prop: &str, thorough: bool) -> Profile {
         }
         "C03" => {
             p.cap = CapMode::Mixed;
+            p.w.warm_insert = 6;
             p.w.synced_insert = 14;
             p.w.invalidate = 10;
             p.w.enter_beyond = 8;
@@ -122,6 +125,7 @@ pub fn profile_for(prop: &str, thorough: bool) -> Profile {
             p.w.synced_insert = 6;
         }
         "C05" => {
+            p.w.iter_advance = 6;
             p.w.burst = 2;
             p.w.fresh_lookup = 7;
             p.burst_sizes = vec![130, 600];
@@ -131,6 +135,7 @@ pub fn profile_for(prop: &str, thorough: bool) -> Profile {
             p.w.contains = 9;
         }
         "C06" => {
+            p.w.iter_advance = 6;
             p.w.burst = 2;
             p.w.fresh_lookup = 7;
             p.burst_sizes = vec![130, 600];
@@ -198,6 +203,7 @@ pub fn profile_for(prop: &str, thorough: bool) -> Profile {
             p.w.iter = 0;
         }
         "C16" => {
+            p.w.iter_advance = 6;
             p.w.burst = 1;
             p.burst_sizes = vec![130, 600];
             p.w.iter = 20;
@@ -243,6 +249,7 @@ pub enum RawOp {
     WarmInsert { k: u16, w: u8, n: u8 },
     Counters,
     FreshLookup { sel: u16, contains: bool },
+    IterAdvance { after: u8, sel: u8 },
 }
 
 const DURS: [Option<u64>; 9] = [
@@ -317,6 +324,7 @@ fn raw_op(w: &OpW) -> BoxedStrategy<RawOp> {
     add(w.burst, (any::<u8>(), any::<u8>(), any::<bool>()).prop_map(|(n, w, gets)| RawOp::Burst { n, w, gets }).boxed());
     add(w.warm_insert, (any::<u16>(), any::<u8>(), any::<u8>()).prop_map(|(k, w, n)| RawOp::WarmInsert { k, w, n }).boxed());
     add(w.counters, Just(RawOp::Counters).boxed());
+    add(w.iter_advance, (any::<u8>(), any::<u8>()).prop_map(|(after, sel)| RawOp::IterAdvance { after, sel }).boxed());
     add(w.fresh_lookup, (any::<u16>(), any::<bool>()).prop_map(|(sel, contains)| RawOp::FreshLookup { sel, contains }).boxed());
     proptest::strategy::Union::new_weighted(v).boxed()
 }
@@ -480,6 +488,10 @@ pub fn build_case(p: &Profile, rc: RawCfg, raw_ops: Vec<RawOp>) -> Case {
                 push(&mut ops, Op::Insert { k, w: wmap(k, w) })
             }
             RawOp::Counters => push(&mut ops, Op::Counters),
+            RawOp::IterAdvance { after, sel } => {
+                let ns = adv_choices[idx(sel as u32, 256, adv_choices.len() as u32) as usize];
+                push(&mut ops, Op::IterAdvance { after: after % 4, ns })
+            }
             RawOp::FreshLookup { sel, contains } => {
                 if contains {
                     push(&mut ops, Op::ContainsFresh { sel })
